@@ -5,6 +5,7 @@ CONSTANTS
     MaxAlter = 1
     TamperFields = {"nextAvk"}
     MsgModes = {"k"}
+    Twins = FALSE
     ForgeEpochs = {1, 2, 3, 4}
     Forge2Pars = {"p"}
     ForgeKeys = {"A"}
